@@ -222,6 +222,57 @@ def check_coincident(name, hi, inp, acc):
         acc.violation('numpy_error_state_not_restored', {'fn': 'curvature', 'input': inp}, {'what': 'coincident', 'shape': name, 'heading': hi, 'input': inp, 't': t0})
 
 
+COINCIDENT_TRANSFORMS = [
+    ('scaled2', lambda s: s.scaled(2.0), lambda d: d),
+    ('scaled1.1', lambda s: s.scaled(1.1), lambda d: d),
+    ('scaled_seventh_about', lambda s: s.scaled(1 / 7.0, origin=0.3 - 0.7j), lambda d: d),
+    ('scaled_neg', lambda s: s.scaled(-1.5), lambda d: -d),
+    ('scaled_nonuniform', lambda s: s.scaled(2.0, 0.5), lambda d: complex(2.0 * d.real, 0.5 * d.imag)),
+    ('translated', lambda s: s.translated(0.1 + 0.2j), lambda d: d),
+    ('rotated_about', lambda s: s.rotated(40, origin=1.1 - 0.3j), lambda d: d * cmath.exp(1j * math.radians(40))),
+    ('path_scaled1.1', lambda s: Path(s).scaled(1.1)[0], lambda d: d),
+    ('path_scaled_third_about', lambda s: Path(s).scaled(1 / 3.0, origin=2 + 1j)[0], lambda d: d),
+    ('reversed_scaled1.1', lambda s: s.reversed().scaled(1.1), None),
+]
+
+
+def check_coincident_transformed(name, hi, acc, only=None):
+    """segments whose first / last control points coincide, with NON-DYADIC coordinates, through the
+    library's own transforms: the tangent at the end where the derivative vanishes must be the image of the
+    original's (a transform that recomputes control points separately can split the coincident pair by an
+    ulp, after which the 'derivative' there is rounding noise)"""
+    builder, t0 = {n: (b, t) for n, b, t in coincident_shapes()}[name]
+    h = HEADINGS[hi]
+    base = builder(h)
+    # an affine image with non-dyadic entries; coincident control points stay bitwise equal (same arithmetic)
+    pts = tuple((p * (1.3 + 0.1j)) + (0.1 + 0.3j) for p in base)
+    cls = QuadraticBezier if len(pts) == 3 else CubicBezier
+    seg = cls(*pts)
+    want0, order = exact_tangent(list(seg.bpoints()), t0)
+    if want0 is None:
+        acc.filt('coincident_transformed_no_reference')
+        return
+    for tname, f, fd in COINCIDENT_TRANSFORMS:
+        if only and tname != only:
+            continue
+        case = {'what': 'coincident_transformed', 'shape': name, 'heading': hi, 'transform': tname}
+        tt = t0
+        if fd is None:
+            tt = 1.0 - t0
+            want = -want0
+        else:
+            w = fd(want0)
+            want = w / abs(w)
+        with warnings.catch_warnings():
+            warnings.simplefilter('ignore')
+            r = outcome(lambda: complex(f(seg).unit_tangent(tt)))
+        acc.case(case, cls='coincident_transformed/%s' % tname.split('_')[0])
+        if r[0] != 'ok' or not abs(r[1] - want) <= 1e-6:
+            acc.violation('tangent_at_vanishing_end_not_covariant', {'kind': 'Q' if len(pts) == 3 else 'C', 'transform': tname.split('1')[0].split('2')[0].rstrip('_'),
+                                                                      'end': 'start' if t0 == 0 else 'end'},
+                          case, observed=r, expected=want)
+
+
 def check_transforms(name, acc, shift=0j, warm=False):
     """shift: the same shape far from the origin (a handle of length ~1 is then tiny RELATIVE to the
     coordinates).  warm: the source segment has answered other queries (length, bbox, poly, derivative)
@@ -353,6 +404,7 @@ def shards(tier, seed):
     out += [{'what': 'segment', 'shape': n, 'rot': 0, 'scale': sc} for n in list(AB.QUADS) + list(AB.CUBICS) + list(AB.ARCS)
             for sc in (1e-6, 1e8)]
     out += [{'what': 'coincident', 'shape': n} for n, _, _ in coincident_shapes()]
+    out += [{'what': 'coincident_transformed', 'shape': n} for n, _, _ in coincident_shapes()]
     out += [{'what': 'transform', 'shape': n} for n in list(AB.LINES) + list(AB.QUADS) + list(AB.CUBICS) + list(AB.ARCS)]
     out += [{'what': 'transform', 'shape': n, 'warm': True} for n in list(AB.LINES) + list(AB.QUADS) + list(AB.CUBICS) + list(AB.ARCS)]
     out += [{'what': 'transform', 'shape': n, 'shift': [3.0e5, 2.0e5], 'warm': w} for n in list(AB.QUADS) + list(AB.CUBICS) for w in (False, True)]
@@ -377,6 +429,9 @@ def run_shard(desc, tier, seed):
                 i += 1
                 if i % desc['part'][1] == desc['part'][0]:
                     check_segment(None, 0, acc, ts=TS_T, lattice=idx)
+    elif desc['what'] == 'coincident_transformed':
+        for hi in range(8):
+            check_coincident_transformed(desc['shape'], hi, acc)
     elif desc['what'] == 'coincident':
         for hi in range(8):
             for inp in ('python', 'numpy', 'rotated'):
@@ -413,6 +468,8 @@ def replay(case):
         acc.vlist = [v for v in acc.vlist if v['case'].get('t') == case['t']]
     elif w == 'lattice':
         check_segment(None, 0, acc, ts=[case['t']], lattice=tuple(case['idx']))
+    elif w == 'coincident_transformed':
+        check_coincident_transformed(case['shape'], case['heading'], acc, only=case['transform'])
     elif w == 'coincident':
         check_coincident(case['shape'], case['heading'], case['input'], acc)
         acc.vlist = [v for v in acc.vlist if v['case'].get('t') == case['t']]
